@@ -67,7 +67,11 @@ pub const GOOD_CAPTURE_SCORE: i32 = 1_000_000_000;
 
 pub const HISTORY_MAX_SCORE: i32 = GOOD_CAPTURE_SCORE - 1;
 
-pub mod move_ordering { pub use super::HISTORY_MAX_SCORE; }
+pub const QUIET_SCORE: i32 = 100_000_000;
+
+pub const BAD_CAPTURE_SCORE: i32 = 0;
+
+pub mod move_ordering { pub use super::{GOOD_CAPTURE_SCORE, HISTORY_MAX_SCORE, QUIET_SCORE, BAD_CAPTURE_SCORE}; }
 
 
 pub struct HistoryTable(pub [[[i32; Square::N]; Square::N]; Player::N]);
